@@ -19,7 +19,12 @@ REQUIRED_THEOREMS = ["faces_in_bijection", "ref_vertex_face_by_face", "ref_verte
                      "prune_keeps_loops_source", "prune_keeps_singular_core_source", "prune_fixpoint_source",
                      # round 4, part B: the edge hypotheses hR / hdisj of the Euler count are theorems
                      "no_corner_starts_two_glued_sides", "euler_characteristic_of_dual_tree_partial2", "euler_formula_partial2",
-                     "uncut_pairs_distinct_source", "euler_characteristic_of_dual_tree_source_partial"]
+                     "uncut_pairs_distinct_source", "euler_characteristic_of_dual_tree_source_partial",
+                     # round 5: the dual Dijkstra as written simulates the C09 Dijkstra model on the dual graph
+                     "dual_tree_refines_dijkstra_source", "dual_tree_result_source", "dual_tree_terminates_source",
+                     "dual_tree_is_forest_source", "dual_tree_spans_source",
+                     # round 5: find loop, renumbering loop, order_verts of _build_mesh_with_cuts
+                     "find_loop_source", "map_loop_source", "order_verts_source", "build_stages_source"]
 TRUSTED = [
     "Lean 4.33.0 kernel; axioms ⊆ {propext, Classical.choice, Quot.sound}",
     "hand-written model Mouette/Model/Cutting.lean (_build_cut_edges_tree, _prune_edge_tree, _build_mesh_with_cuts over the C20 "
@@ -557,14 +562,14 @@ SOURCE_MAP = {
     _CUT + "_build_singularity_spanning_tree_no_features.compute_path_length": "oracle-only",
     _CUT + "_build_singularity_spanning_tree_with_features": "oracle-only",
     _CUT + "_build_feature_regions": "oracle-only",
-    _CUT + "_build_dual_tree_no_features": "oracle-only",
-    _CUT + "_build_dual_tree_no_features.face_distance": "oracle-only",
+    _CUT + "_build_dual_tree_no_features": "translated",
+    _CUT + "_build_dual_tree_no_features.face_distance": "oracle-only",   # its body is checked by the translator (distance of two barycenters); its value is the parameter `fd`
     _CUT + "_build_dual_tree_with_features": "oracle-only",
     _CUT + "_build_dual_tree_with_features.face_distance": "oracle-only",
     _CUT + "_build_cut_edges_tree": "translated",
     _CUT + "_prune_edge_tree": "translated",
     _CUT + "_build_cut_graph_as_mesh": "oracle-only",
-    _CUT + "_build_mesh_with_cuts": "translated: corner numbering, union loop and imap loop (bridged by build_source); the find / order_verts / ref_vertex stages are hand-modelled",
+    _CUT + "_build_mesh_with_cuts": "translated: corner numbering, union loop, find loop, imap loop, renumbering loop, order_verts (bridged by build_source, build_stages_source); only the duplicate_vertices / ref_vertex bookkeeping is hand-modelled",
     "mouette/processing/paths.py::build_path": "oracle-only",
     "mouette/processing/paths.py::_check_weight_argument": "oracle-only",
     "mouette/processing/paths.py::shortest_path": "oracle-only",
@@ -617,7 +622,13 @@ MANIFEST = {
                    "every run (explicit dict cut_adj, remove / add / = set(), edge_id, deque, while on fuel) and proved to REFINE the hand model "
                    "(build_cut_edges_tree_source, prune_source, run_source, run_stages_source, corner_loop_source, union_loop_source, imap_loop_source, "
                    "build_source); the pruning theorems are restated on the extracted definitions (cut_adj_is_adjacency_source, "
-                   "prune_only_removes_source, prune_keeps_loops_source, prune_keeps_singular_core_source, prune_fixpoint_source). The property is also checked on histories (cutter run twice, a second cutter on a "
+                   "prune_only_removes_source, prune_keeps_loops_source, prune_keeps_singular_core_source, prune_fixpoint_source). ROUND 5: the dual Dijkstra "
+                   "_build_dual_tree_no_features is re-translated imperatively (Generated/C16Dual.lean: initialisations, while/get, continue guards, relaxation, "
+                   "path[..] = e, push, returned set) and proved to SIMULATE the C09 Dijkstra model run on the dual graph (dual_tree_refines_dijkstra_source), "
+                   "so for every min-heap and non-negative face distances: the loop terminates with an empty queue (dual_tree_terminates_source), every "
+                   "path[f] is a non-forbidden edge joining f to a face visited EARLIER - a forest rooted at face 0 (dual_tree_is_forest_source) - and every "
+                   "face joined to face 0 across non-forbidden edges is visited and has a tree edge (dual_tree_spans_source); the find loop, the renumbering "
+                   "loop and order_verts of _build_mesh_with_cuts are translated and bridged as well (build_stages_source). The property is also checked on histories (cutter run twice, a second cutter on a "
                    "used mesh, accessors in every order, detector run twice) and on every representation of the singularity set (list, "
                    "tuple, set, int64/int32 ndarray, numpy scalars, vertex attribute), with by-value snapshots. NOT proved - checked on every run by the oracle with an independent routine "
                    "(surface_stats): the cut mesh is ONE component with ONE border loop and Euler characteristic 1 (tree-cotree theorem), "
